@@ -168,7 +168,9 @@ def corr_special_inputs(ctx: Ctx, H):
                 verdict = H._noise_verdict(cls, [float(p) for p in ps], trim, wrapped, meth, x, v, m)
                 ctx.tagc("r4:special:ill-conditioned-point-not-compared" if verdict == "ill" else "r4:special:conditioning-fallback")
                 ok = verdict != "bad"
-            if not ok and _is_end_neighbour(x) and v == v and m == m and (abs(v) >= 1e8 or abs(m) >= 1e8 or abs(abs(v) - 1) < 1e-3):
+            codomain_side = (meth in H.FWD) == wrapped
+            if not ok and _is_end_neighbour(x) and ((v == v and m == m and (abs(v) >= 1e8 or abs(m) >= 1e8 or abs(abs(v) - 1) < 1e-3))
+                                                    or (codomain_side and cls not in ("LinearFiniteRTransform", "LinearInfiniteRTransform", "IdentityRTransform"))):
                 # one double off an end the inverse map of the exponent classes moves by 1e-4 and its derivatives by orders of magnitude
                 # with the last bit of exp / pow: nothing to compare
                 ctx.tagc("r4:special:end-neighbour-not-compared")
